@@ -51,7 +51,7 @@ MECH = ["nutree.tree:Tree.__enter__", "nutree.tree:Tree.__exit__", "nutree.tree:
 MIN_NONTRIVIAL = {"quick": 200, "thorough": 900}
 MIN_COUNTERS = {"quick": {"blocked_events": 150, "snapshots_checked": 1000}, "thorough": {"blocked_events": 1500, "snapshots_checked": 20000}}
 
-OPS = ["save_stream", "save_path", "copy", "filtered", "copy_pred", "copy_to", "to_dict_list", "to_dotfile", "with"]
+OPS = ["save_stream", "save_path", "save_zip", "copy", "filtered", "copy_pred", "copy_to", "to_dict_list", "to_dotfile", "with"]
 OPS_WITH_CALLBACK = ["save_stream", "filtered", "copy_pred", "to_dict_list", "to_dotfile"]
 STYLES = ["relabel", "rebuild", "mixed"]
 G, C = 3, 3  # groups x children
@@ -130,6 +130,7 @@ def names():
 ALLNAMES = names()
 
 
+TRACKED = {"n": 0}
 TYPED = {"on": False}  # set per case: the shared tree is a TypedTree whose kinds change with the version
 
 
@@ -199,6 +200,7 @@ def instrument(t, log):
     """Installs the proxy and verifies that `with tree:` really goes through it."""
     if not hasattr(t, "_lock") or not hasattr(t._lock, "acquire"):
         return False
+    TRACKED["n"] += type(t._lock).__name__ == "TrackedRLock"
     t._lock = LockProxy(t._lock, log)
     n0 = len(log.events)
     with t:
@@ -209,7 +211,7 @@ def instrument(t, log):
 
 def labels_of(op, result):
     """Extract the list of node labels from a snapshot result."""
-    if op in ("save_stream", "save_path"):
+    if op in ("save_stream", "save_path", "save_zip"):
         doc = json.loads(result)
         out = []
         for pidx, data in doc["nodes"]:
@@ -288,6 +290,13 @@ def run_op(op, t, tmpdir, hook=None):
         t.save(pth)
         with open(pth) as fp:
             return fp.read()
+    if op == "save_zip":
+        import zipfile
+
+        pth = os.path.join(tmpdir, f"z{threading.get_ident()}.zip")
+        t.save(pth, compression=True)
+        with zipfile.ZipFile(pth) as zf:
+            return zf.read(zf.namelist()[0]).decode("utf8")
     if op == "copy":
         return [n.data for n in t.copy()]
     if op in ("filtered", "copy_pred"):
@@ -379,21 +388,47 @@ def schedule_A(case, res):
             if not log.wait_for(settled):
                 timed_out = True
             log.add("writer-observed", me)
+            if case.get("owner_op"):
+                # the owner itself calls the same snapshot operation (re-entrancy) while the readers are blocked on the lock;
+                # the snapshot it gets is the intermediate state it has produced itself - only completion matters here
+                run_op(op, t, tmpdir)
+                log.add("owner-op-done", me)
             for s in steps[p:]:
                 s()
             log.add("leave-body", me)
 
-        if nest == 1:
-            with t:
-                body()
-        else:
-            with t:
-                with t:
-                    body()
+        werr = []
+
+        def writer_thread():
+            nonlocal me
+            me = threading.get_ident()
+            try:
+                if nest == 1:
+                    with t:
+                        body()
+                else:
+                    with t:
+                        with t:
+                            body()
+            except Exception as e:
+                werr.append(f"writer/owner thread raised {type(e).__name__}: {e}")
+
+        wt = threading.Thread(target=writer_thread, daemon=True)
+        wt.start()
+        wt.join(WATCHDOG * 2)
         for th in threads:
             th.join(WATCHDOG)
-        if timed_out or any(th.is_alive() for th in threads):
-            res.inconc("schedule A: watchdog fired")
+        from .. import locktrack
+
+        if locktrack.DEADLOCKS:
+            bad.append("deadlock among the library's locks: " + locktrack.DEADLOCKS[0])
+            del locktrack.DEADLOCKS[:]
+        bad += werr
+        if timed_out or wt.is_alive() or any(th.is_alive() for th in threads):
+            if not bad:
+                res.inconc("schedule A: watchdog fired")
+                return
+            res.violation(case, "; ".join(dict.fromkeys(bad))[:2500])
             return
         roles = {me: "writer", **{tid: f"reader{i}" for i, tid in enumerate(tids)}}
         res.count("interleaving:" + interleaving_signature(log, roles))
@@ -681,6 +716,15 @@ def stress(case, res):
 
 def run_case(case, res):
     TYPED["on"] = bool(case.get("typed"))
+    try:
+        return _run_case(case, res)
+    finally:
+        if TRACKED["n"]:
+            res.count("trees_with_tracked_lock", TRACKED["n"])
+            TRACKED["n"] = 0
+
+
+def _run_case(case, res):
     k = case["kind"]
     if k == "A":
         m = len(writer_steps(build_tree(0), case["style"], 0))
@@ -710,6 +754,9 @@ def all_points(tier):
                         if tier == "quick" and (nest == 2) != (readers == 3):
                             continue
                         pts.append({"kind": "A", "op": op, "style": style, "phase": p, "nest": nest, "readers": readers})
+    for op in OPS:
+        for style in (STYLES if tier != "quick" else ["rebuild"]):
+            pts.append({"kind": "A", "op": op, "style": style, "phase": 2, "nest": 2, "readers": 2, "owner_op": True})
     for op in OPS_WITH_CALLBACK:
         for style in STYLES:
             for k in ([1, 2, 5, 9, 12] if tier == "quick" else list(range(1, 14))):
